@@ -347,3 +347,82 @@ func errorReturnOnly(b *ssa.BasicBlock, seen map[*ssa.BasicBlock]bool) bool {
 	}
 	return true
 }
+
+// checkPointerFieldWrites (ptr.fresh-store): list elements of this package are copied by value
+// (append(list, elem)), so a pointer field is shared between the copies.  A method therefore
+// must not write THROUGH a pointer field of its receiver (*u.F = v) unless it has, on every
+// path to that write, just pointed the field at a fresh allocation; otherwise the write shows
+// through every earlier copy of the element.
+func checkPointerFieldWrites(w *World, r *Report, rel string) {
+	p := w.ByRel[rel]
+	if p == nil {
+		return
+	}
+	sp := w.SSA[p]
+	type fieldKey struct {
+		base  ssa.Value
+		field int
+	}
+	for fn := range w.AllFuncs() {
+		if fn.Pkg != sp || fn.Blocks == nil || fn.Signature.Recv() == nil || len(fn.Params) == 0 {
+			continue
+		}
+		recv := ssa.Value(fn.Params[0])
+		var fresh []*ssa.Store
+		for _, b := range fn.Blocks {
+			for _, ins := range b.Instrs {
+				if st, ok := ins.(*ssa.Store); ok {
+					if a, isAlloc := st.Val.(*ssa.Alloc); isAlloc && a.Heap {
+						fresh = append(fresh, st)
+					}
+				}
+			}
+		}
+		for _, b := range fn.Blocks {
+			for idx, ins := range b.Instrs {
+				st, ok := ins.(*ssa.Store)
+				if !ok {
+					continue
+				}
+				ld, ok := st.Addr.(*ssa.UnOp)
+				if !ok || ld.Op != token.MUL {
+					continue
+				}
+				fa, ok := ld.X.(*ssa.FieldAddr)
+				if !ok || fa.X != recv {
+					continue
+				}
+				if _, isPtr := fa.Type().Underlying().(*types.Pointer).Elem().Underlying().(*types.Pointer); !isPtr {
+					continue
+				}
+				name := SSAFuncName(fn)
+				r.Fn(name)
+				r.Site("ptr.fresh-store")
+				k := fieldKey{fa.X, fa.Field}
+				good := false
+				for _, fs := range fresh {
+					ffa, ok := fs.Addr.(*ssa.FieldAddr)
+					if !ok || (fieldKey{ffa.X, ffa.Field}) != k {
+						continue
+					}
+					if fs.Block() == b {
+						for j := 0; j < idx; j++ {
+							if b.Instrs[j] == ssa.Instruction(fs) {
+								good = true
+							}
+						}
+					} else if fs.Block().Dominates(b) {
+						good = true
+					}
+				}
+				stt := fa.X.Type().Underlying().(*types.Pointer).Elem().Underlying().(*types.Struct)
+				fname := stt.Field(fa.Field).Name()
+				if good {
+					r.OK("ptr.fresh-store")
+				} else {
+					r.Fail("ptr.fresh-store", name, "*"+fname, st.Pos(), "writes through the pointer field "+fname+" of the receiver without having pointed it at a fresh allocation on every path: the write shows through every value copy of this element made earlier", nil)
+				}
+			}
+		}
+	}
+}
